@@ -107,7 +107,7 @@ def register_family_cases(g):
     fam = g.pick(["&genreg", "&genreg", "&genreg", "&indreg", "&indreg", "&stackreg", "&basereg"])
     t = REGS[fam]
     widths = [w for w in t if w != "letters"]
-    base = fam + g.pick(["", "-1", "-x", ".acc", ".tmp.1", "_2"])       # a tag may itself contain dots
+    base = fam + g.pick(["", "-1", "-x", ".acc", ".tmp.1", "_2", "-A", "-Acc", ".Tmp"])       # a tag may itself contain dots
     w1, w2 = g.pick(widths + [None]), g.pick(widths)
     n1 = base + ("." + w1 if w1 else "")
     n2 = base + "." + w2
